@@ -1,0 +1,75 @@
+//! Verification hooks (built only with `--cfg erbium_verif`): the cache
+//! operations, which are private to this module, so that they can be driven
+//! under tokio's paused clock.  Nothing here is used by erbium itself.
+use super::*;
+
+pub struct VerifCache(CacheHandler);
+
+pub fn key(qname: dnspkt::Domain, qtype: dnspkt::Type, edns_do: bool, cd: bool) -> VerifKey {
+    VerifKey(CacheKey {
+        qname,
+        qtype,
+        edns_do,
+        cd,
+    })
+}
+
+pub struct VerifKey(CacheKey);
+
+impl VerifCache {
+    /// A cache without the background expiry task (as the crate's own test builds it).
+    pub fn new() -> Self {
+        VerifCache(CacheHandler {
+            next: outquery::OutQuery::new(),
+            cache: Arc::new(RwLock::new(Cache::new())),
+        })
+    }
+
+    /// `CacheHandler::handle_query` itself (lookup, upstream on a miss, insert).
+    pub async fn handle_query(
+        &self,
+        msg: &crate::dns::DnsMessage,
+        addr: std::net::SocketAddr,
+    ) -> Result<dnspkt::DNSPkt, Error> {
+        self.0.handle_query(msg, addr).await
+    }
+
+    /// `CacheHandler::get_entry` at the given instant.
+    pub async fn get_entry(&self, ck: &VerifKey, now: Instant) -> Option<Result<dnspkt::DNSPkt, Error>> {
+        let rocache = self.0.cache.read().await;
+        CacheHandler::get_entry(&rocache, &ck.0, now)
+    }
+
+    /// `CacheHandler::calculate_expiry`.
+    pub fn calculate_expiry(&self, out_result: &Result<dnspkt::DNSPkt, Error>) -> Duration {
+        self.0.calculate_expiry(out_result)
+    }
+
+    /// `CacheHandler::insert_cache_entry` (birth = `Instant::now()`).
+    pub async fn insert_cache_entry(
+        &self,
+        ck: VerifKey,
+        out_result: &Result<dnspkt::DNSPkt, Error>,
+        expiry: Duration,
+    ) {
+        let mut rwcache = self.0.cache.write().await;
+        self.0.insert_cache_entry(&mut rwcache, ck.0, out_result, expiry);
+    }
+
+    /// `CacheHandler::expire`; returns the next cycle and the number of entries left.
+    pub async fn expire(&self, now: Instant) -> (Instant, usize) {
+        let mut rwcache = self.0.cache.write().await;
+        let next = CacheHandler::expire(&mut rwcache, now);
+        (next, rwcache.len())
+    }
+
+    pub async fn len(&self) -> usize {
+        self.0.cache.read().await.len()
+    }
+}
+
+impl Default for VerifCache {
+    fn default() -> Self {
+        Self::new()
+    }
+}
